@@ -76,7 +76,10 @@ TEMPLATES += [f"{{ uint32_t Rs_{k} = 64; RdV = (int32_t) mem_load_s32(RsV); ReV 
              ["{ uint32_t const_5 = 7; RdV = 5; ReV = const_5; }", "{ uint32_t const_1 = 9; RdV = RsV + 1; ReV = const_1; }",
               "{ ({ RdV = 1; ReV = 2; ({ RxV = 3; RxV += 4; RxV += 5; }); }); }",
               "{ if (RsV) ({ RdV = 1; ReV = 2; ({ RxV = 3; RxV += 4; RxV += 5; }); }); }",
-              "{ RdV = RxV += RsV; }", "{ RdV = RxV = RxV + 1; }", "{ int32_t a; a = RxV -= RsV; RdV = a + RxV; }"]
+              "{ RdV = RxV += RsV; }", "{ RdV = RxV = RxV + 1; }", "{ int32_t a; a = RxV -= RsV; RdV = a + RxV; }",
+              # value-producing operations whose consumer is ignored (fatal) still have to be sequenced
+              "{ int32_t n = RsV; fatal(n--); RdV = n; }", "{ int32_t n = RsV; fatal(clz32(n)); RdV = n; }",
+              "{ int32_t n = RsV; if (RtV) { fatal(n++); } RdV = n; }"]
 
 BASE_FEATURES = gen.SAFE_CORE
 STATIC_RENAMES = ["seq", "branch", "empty", "nop", "cond", "jump", "cast", "seq_then", "seq_else", "h_tmp", "op", "tmp",
